@@ -112,3 +112,29 @@ func Verif_C40_failedNestedCall() {
 	verifAssert(sum.Sign() == 0, "transfers conserve value")
 	verifReach("succeeded")
 }
+
+// Nested deployment (DeploySystemSC runs the new contract's init in the caller's environment): whatever
+// the init call returns, the caller continues in its own context - its contract address is restored, its
+// own storage is what it reads and writes afterwards.
+func Verif_C40_deployKeepsCallerContext() {
+	outer := []byte("outer-contract-address-000000000")
+	newAddr := []byte("newly-deployed-address-000000000")
+	third := []byte("third-party-address-000000000000")
+	host := &vmContext{blockChainHook: verifC40Hook{}, inputParser: verifC40Parser{}, scAddress: outer,
+		storageUpdate: map[string]map[string][]byte{}, outputAccounts: map[string]*vmcommon.OutputAccount{}}
+	host.SetStorage([]byte("o"), []byte("outer-value"))
+	inner := &verifC40Inner{eei: host, key: []byte("k"), val: verifBytes("new", 1), amount: big.NewInt(0), to: third}
+	if verifBool("initFails") {
+		inner.code = vmcommon.UserError
+	}
+	host.systemContracts = &verifC40Container{inner: inner}
+	code, err := host.DeploySystemSC([]byte("base"), newAddr, outer, "init", big.NewInt(0), nil)
+	verifAssert(err == nil, "deploy call executed")
+	verifAssert(code == inner.code, "the init return code is reported")
+	verifAssert(string(host.scAddress) == string(outer), "the caller's context is restored after the nested init call")
+	verifAssert(string(host.GetStorage([]byte("o"))) == "outer-value", "the caller reads its own storage afterwards")
+	host.SetStorage([]byte("p"), []byte("later"))
+	verifAssert(string(host.GetStorageFromAddress(outer, []byte("p"))) == "later", "the caller's later writes go to its own storage")
+	verifAssert(len(host.GetStorageFromAddress(newAddr, []byte("p"))) == 0, "and not to the deployed contract's storage")
+	verifReach("end")
+}
